@@ -1,6 +1,8 @@
 package main
 
 import (
+	"math/rand"
+	"strconv"
 	"crypto/sha256"
 	"encoding/json"
 	"fmt"
@@ -149,8 +151,15 @@ type HarnessSpec struct {
 	VerdMs  int            `json:"verd_ms,omitempty"`
 	MaxPath int            `json:"max_paths,omitempty"`
 	Note    string         `json:"note,omitempty"`
+	// CasePick restricts a vhCase variable to a subset: the listed values plus `random` seeded picks (VERIF_SEED)
+	CasePick map[string]CasePick `json:"case_pick,omitempty"`
 	// Reach tags that must be witnessed by at least one completed path (vacuity guard)
 	Reach []string `json:"reach,omitempty"`
+}
+
+type CasePick struct {
+	Always []int64 `json:"always"`
+	Random int     `json:"random"`
 }
 
 type HarnessReport struct {
@@ -185,6 +194,15 @@ type Violation struct {
 	Known     string            `json:"known_finding,omitempty"`
 }
 
+func seedFromEnv() int64 {
+	if s := os.Getenv("VERIF_SEED"); s != "" {
+		if v, err := strconv.ParseInt(s, 10, 64); err == nil {
+			return v
+		}
+	}
+	return 1
+}
+
 func caseName(cs map[string]int64) string {
 	var ks []string
 	for k := range cs {
@@ -197,6 +215,9 @@ func caseName(cs map[string]int64) string {
 	}
 	return sb.String()
 }
+
+// globalSem bounds the number of concurrently running symbolic executions (one solver process each)
+var globalSem = make(chan bool, 16)
 
 type job struct {
 	cases map[string]int64
@@ -230,6 +251,8 @@ func runHarness(l *Loaded, spec HarnessSpec, workers int, verbose bool, dumpDir 
 			for j := range jobs {
 				func() {
 					defer pending.Done()
+					globalSem <- true
+					defer func() { <-globalSem }()
 					cfg := Config{Unwind: spec.Unwind, Cases: j.cases, Verbose: verbose, FeasTimeoutMs: spec.FeasMs, VerdTimeoutMs: spec.VerdMs,
 						MaxPaths: spec.MaxPath, CaseName: caseName(j.cases), DumpQueries: dumpDir, Params: spec.Params}
 					c := NewCtx(l.prog, cfg)
@@ -251,7 +274,21 @@ func runHarness(l *Loaded, spec HarnessSpec, workers int, verbose bool, dumpDir 
 					}()
 					if c.needCase != nil {
 						nc := c.needCase
+						var pick map[int64]bool
+						if cp, ok := spec.CasePick[nc.Name]; ok {
+							pick = map[int64]bool{}
+							for _, a := range cp.Always {
+								pick[a] = true
+							}
+							rng := rand.New(rand.NewSource(seedFromEnv()))
+							for tries := 0; len(pick) < len(cp.Always)+cp.Random && tries < 10000 && int64(len(pick)) < nc.Hi-nc.Lo+1; tries++ {
+								pick[nc.Lo+rng.Int63n(nc.Hi-nc.Lo+1)] = true
+							}
+						}
 						for v := nc.Lo; v <= nc.Hi; v++ {
+							if pick != nil && !pick[v] {
+								continue
+							}
 							m := map[string]int64{}
 							for k, x := range j.cases {
 								m[k] = x
